@@ -20,6 +20,9 @@ type Slicer struct {
 	// BindRoot also binds the parameters of the function the slice starts in to
 	// the arguments of its in-repo call sites (role checks across a helper boundary).
 	BindRoot bool
+	// Control also follows the conditions that select which return of a repo
+	// callee is taken (control dependence of the result).
+	Control bool
 
 	seen     map[ssa.Value]bool
 	bindings map[*ssa.Parameter][]ssa.Value
@@ -316,7 +319,13 @@ func (s *Slicer) visitBase(v ssa.Value) {
 		case *ssa.Slice:
 			v = x.X
 		case *ssa.Extract:
-			s.seen[x.Tuple] = true
+			// an object returned by a call: its identity is what the call built it from
+			delete(s.seen, v)
+			s.visit(v, 1)
+			return
+		case *ssa.Call:
+			delete(s.seen, v)
+			s.visit(v, 1)
 			return
 		case *ssa.Phi:
 			for _, e := range x.Edges {
@@ -540,6 +549,11 @@ func (s *Slicer) call(c *ssa.Call, resultIdx int, depth int) {
 			for i, res := range r.Results {
 				if resultIdx < 0 || i == resultIdx {
 					s.visit(res, depth+1)
+				}
+			}
+			if s.Control {
+				for _, ce := range DominatingConds(callee, r.Block()) {
+					s.visit(ce.Cond, depth+1)
 				}
 			}
 		}
